@@ -322,7 +322,7 @@ func c23RunSearch(c *Ctx, cs c23Case, style int) (fail bool, what string) {
 	if in.TimedOut { // machine load: once more, then give the case up rather than blame the implementation
 		in = runInterp(c, syntax.LangBash, script, args...)
 		if in.TimedOut {
-			return false, "oracle-unavailable"
+			return false, "interp-timeout"
 		}
 	}
 	if in.Panic != "" {
@@ -730,8 +730,10 @@ func c23(c *Ctx) {
 	})
 	nb := 0
 	for i, sc := range shCases {
-		if results[i].what == "oracle-unavailable" {
-			c.Case("sh\x00"+sc.witness, false, "oracle-unavailable")
+		if results[i].what == "oracle-unavailable" || results[i].what == "interp-timeout" {
+			// visible in the evidence histogram; a real hang of `read`/expansion would show up as a
+			// large `interp-timeout` count on an idle machine
+			c.Case("sh\x00"+sc.witness, false, results[i].what)
 			continue
 		}
 		nb++
